@@ -38,7 +38,9 @@ fn replay(prop: &str, file: &str) -> i32 {
             "rules" => props_rules::replay_rules(&case),
             "captures" => props_capture::replay_captures(&case),
             "routes" => props_capture::replay_routes(&case),
+            "long-captures" => props_capture::replay_long_captures(&case),
             "total" => props_total::replay_total(&case),
+            "combinator" => props_total::replay_combinator(&case),
             "spans" => props_total::replay_spans(&case),
             "walk" => props_fs::replay_walk(&case, prop),
             "anchor" => props_fs::replay_anchor(&case),
